@@ -15,7 +15,7 @@ META = {
     "level": "exploration",
     "technique": "differential execution: instruction stream of the real generator run by an abstract machine (checked memory, poison, typed core values) vs an independent reference canonical ABI",
     "text": "Every (type, value, pointer width 4|8, list policy never|scalars|rust-like) case lowers flat and to memory, lifts from memory and from flat parameters; flat values and all non-padding bytes must equal the reference, reference-lifting of the machine's output and machine-lifting of reference output (canonical, garbage in padding, garbage above narrow ints / in unused variant slots) must return the value. Held = on the cases run; nothing is proved.",
-    "note": "Trusted: cabi-ref (reference written from CanonicalABI.md), wit-parser's SizeAlign (layout mismatches between the two are routed to inconclusive), the machine's reading of the Instruction doc comments. flags with 0 or >32 members are outside the component-encodable domain: mismatches there are inconclusive.",
+    "note": "Trusted: cabi-ref (reference written from CanonicalABI.md), wit-parser's SizeAlign (layout mismatches between the two are routed to inconclusive), the machine's reading of the Instruction doc comments. flags with 0 or >32 members are outside the component-encodable domain: mismatches there are inconclusive. A narrow integer loaded with the other signedness than its type (I32Load16S for u16 etc.) changes no lifted value because every narrow lift truncates: it is only counted (coverage.load_extension_mismatches, with samples), never a violation.",
 }
 FLOORS = {"quick": (100000, 300), "thorough": (2000000, 2000)}
 
